@@ -1,0 +1,78 @@
+//go:build verif
+
+// Contracts for the deductive verifier under /verif (govc). This file is compiled only with the build
+// tag "verif"; it contains specifications as //@ comments and no executable code.
+
+package pcapgo
+
+// ---- assumed contracts of the buffered reader / writer the capture-file code sits on ------------------------
+// ghost(consumed): bytes taken from the underlying stream; ghost(wrote): bytes handed to the underlying writer.
+
+//@ extern (b *bufio.Reader) Read(p []byte) (int, error)
+//@   ensures 0 <= result0 && result0 <= len(p)
+//@   ensures result1 == nil && len(p) > 0 ==> result0 > 0
+//@   ensures ghost(consumed) == old(ghost(consumed)) + result0
+//@   modifies ghost:consumed contents(p)
+
+//@ extern (b *bufio.Reader) Discard(n int) (int, error)
+//@   ensures n < 0 ==> result1 != nil && result0 == 0
+//@   ensures n >= 0 ==> 0 <= result0 && result0 <= n
+//@   ensures result1 == nil ==> result0 == n
+//@   ensures ghost(consumed) == old(ghost(consumed)) + result0
+//@   modifies ghost:consumed
+
+//@ extern (b *bufio.Writer) Write(p []byte) (int, error)
+//@   ensures 0 <= result0 && result0 <= len(p)
+//@   ensures result1 == nil ==> result0 == len(p)
+//@   ensures ghost(wrote) == old(ghost(wrote)) + result0
+//@   modifies ghost:wrote
+
+// ---- pcapng reader: every byte of an option is consumed, including its padding to 32 bits (C14, C15) ----------
+
+// readBytes returns only when the buffer is full or the stream failed; it consumes exactly what it returns.
+//@ func (r *NgReader) readBytes(buffer []byte) (uint, error)
+//@   props C14 C15
+//@   ensures result1 == nil ==> result0 == len(buffer)
+//@   ensures result0 <= len(buffer)
+//@   ensures ghost(consumed) == old(ghost(consumed)) + result0
+//@   loop 0: invariant 0 <= n && n <= len(buffer) && ghost(consumed) == old(ghost(consumed)) + n
+//@   loop 0: decreases len(buffer) - n
+
+//@ func (r *NgReader) discard(length int) error
+//@   props C14 C15
+//@   ensures result == nil ==> ghost(consumed) == old(ghost(consumed)) + length && length >= 0
+//@   ensures result == nil ==> r.currentBlock.length == wrap32(old(r.currentBlock.length) - length)
+
+// An option occupies 4 + length + padding-to-a-multiple-of-4 bytes of the block; the value returned for it has
+// exactly the announced length.
+//@ func (r *NgReader) readOption() error
+//@   props C14 C15
+//@   ensures result == nil && old(r.currentBlock.length) == 4 ==> ghost(consumed) == old(ghost(consumed))
+//@   ensures result == nil && old(r.currentBlock.length) != 4 && r.currentOption.code == 0 ==> ghost(consumed) == old(ghost(consumed)) + 4
+//@   ensures result == nil && old(r.currentBlock.length) != 4 && r.currentOption.code != 0 && (r.bigEndian ? be16(r.buf, 2) : le16(r.buf, 2)) != 0 ==> len(r.currentOption.value) == (r.bigEndian ? be16(r.buf, 2) : le16(r.buf, 2))
+//@   ensures result == nil && old(r.currentBlock.length) != 4 && r.currentOption.code != 0 && (r.bigEndian ? be16(r.buf, 2) : le16(r.buf, 2)) != 0 ==> ghost(consumed) == old(ghost(consumed)) + 4 + len(r.currentOption.value) + (4 - len(r.currentOption.value) % 4) % 4
+
+// ---- pcapng writer: block layout (C14) ----------------------------------------------------------------------
+
+// The packet data is padded to a 32-bit boundary before the options start: when the options are written exactly
+// 28 header bytes, the data and its padding have been handed to the writer.
+//@ func prepareNgOptions(options []ngOption) uint32
+//@   props C14
+//@   ensures result % 4 == 0
+//@   loop 0: invariant ret % 4 == 0
+
+//@ func (w *NgWriter) WritePacketWithOptions(ci gopacket.CaptureInfo, data []byte, opts NgPacketOptions) error
+//@   props C14
+//@   at writeOptions 0: assert ghost(wrote) == old(ghost(wrote)) + 28 + len(data) + (4 - len(data) % 4) % 4
+
+// ---- classic pcap reader: the result clause of the statement (C15) and the record header codec (C14) ---------
+
+// A packet is returned only with exactly CaptureLength bytes, CaptureLength <= Length and CaptureLength within the
+// declared snap length (which bounds the allocation made for it).
+//@ func (r *Reader) ReadPacketData() (data []byte, ci gopacket.CaptureInfo, err error)
+//@   props C14 C15
+//@   ensures err == nil ==> len(data) == ci.CaptureLength && ci.CaptureLength <= ci.Length && ci.CaptureLength <= r.snaplen && 0 <= ci.CaptureLength
+
+//@ func (r *Reader) ZeroCopyReadPacketData() (data []byte, ci gopacket.CaptureInfo, err error)
+//@   props C14 C15
+//@   ensures err == nil ==> len(data) == ci.CaptureLength && ci.CaptureLength <= ci.Length && ci.CaptureLength <= r.snaplen && 0 <= ci.CaptureLength
